@@ -652,6 +652,20 @@ func RewriteMoves(p *load.Prog, r *oblig.Report, rule string, funcs []*ssa.Funct
 	}
 }
 
+// oneElementList: the variadic part of an append built from a single operand (slice of a fresh [1]T).
+func oneElementList(v ssa.Value) bool {
+	sl, ok := v.(*ssa.Slice)
+	if !ok {
+		return false
+	}
+	al, ok := sl.X.(*ssa.Alloc)
+	if !ok {
+		return false
+	}
+	arr, ok := al.Type().Underlying().(*types.Pointer).Elem().Underlying().(*types.Array)
+	return ok && arr.Len() == 1
+}
+
 func structNameOf(t types.Type) string {
 	if p, ok := t.Underlying().(*types.Pointer); ok {
 		t = p.Elem()
@@ -677,6 +691,10 @@ func rewriteOrigin(v ssa.Value, target *ssa.FieldAddr) (string, string) {
 		if b, ok := x.Common().Value.(*ssa.Builtin); ok && b.Name() == "append" {
 			first := x.Common().Args[0]
 			fp := AccessPath(first)
+			// exactly one operand is added: a group or operand becomes ONE element of the enclosing list
+			if len(x.Common().Args) == 2 && !oneElementList(x.Common().Args[1]) {
+				return "", "an append that splices the whole list " + AccessPath(x.Common().Args[1]) + " into another operand list (a parenthesised group would lose its own node and its operands would change level)"
+			}
 			if fp == AccessPath(target) {
 				return "append-to-own", ""
 			}
